@@ -56,8 +56,9 @@ CHECKS = {
         cat="model_checking",
         text=("ap is concrete per symbolic path; at every dynamic call instance (top-level and inlined "
               "callees) on every feasible path, ap_at_ret - ap_at_entry equals the declared "
-              "function_ap_change, for both ap-change solvers; static leg: statement code ranges partition "
-              "the bytecode and are made of whole instructions. Replayed witnesses compare the full "
+              "function_ap_change, for both ap-change solvers; static leg: the statement code ranges the "
+              "compiler records partition the bytecode and are made of whole instructions (a mismatch is "
+              "a violation whose record re-compiles the source). Replayed witnesses compare the full "
               "(pc, ap, fp) trace with the real VM."),
         technique="symbolic execution of emitted CASM + SMT path feasibility; static range check",
         ref="DESIGN.md 3/C17"),
@@ -74,13 +75,16 @@ CHECKS.update({
               "every accepted CASM path (adversarial hints) and every guarded reference outcome, z3 decides "
               "path AND guard AND outcome != reference is unsatisfiable, for all inputs. The `fold` family "
               "(constant 0/1/-1/MIN/MAX on either side of every operator, every integer type), the `spec` "
-              "family (specialisation call patterns) and the plumbing family are checked the same way. "
+              "family (specialisation call patterns), the `shuf` family (a second seeded generator of "
+              "pure data-movement functions: destructure / match / partial re-assignment across joins / "
+              "box / snapshot / non-inlined helpers / rebuild, with structural evaluation as reference), "
+              "the `flow`, `pow` and plumbing families are checked the same way. "
               "The 'for all programs' quantifier is sampled (seeded); 'for all inputs' is decided."),
         technique="symbolic execution of emitted CASM + SMT equivalence with a reference evaluator over the generator's AST (z3)",
         ref="DESIGN.md 3/C01, 7.2"),
     "C05": dict(
         cat="translation_validation",
-        text=("Each program (generated, fold, spec, plumbing) is compiled by the real compiler with "
+        text=("Each program (generated by gen.py and gen_shuf.py, fold, spec, flow, pow, plumbing) is compiled by the real compiler with "
               "optimizations disabled (baseline) and under 5 (quick) / 13 (thorough) configurations "
               "(inlining strategies, skip_const_folding, numeric-match thresholds, LP metadata solvers); "
               "both CASM programs are executed symbolically over the same input variables and for every "
@@ -97,7 +101,8 @@ CHECKS.update({
               "are driven at solver-chosen representatives: for every region of each template's "
               "specification z3 picks boundary, adjacent and interior operand tuples; the real compiler "
               "evaluates `const C: T = e[v];` and `fn f() -> T { e[v] }` with folding on and off; value / "
-              "compile error must match the specification exactly. felt252 operands are written in both "
+              "compile error must match the specification exactly (templates: every scalar operator and "
+              "conversion, plus the corelib `const fn`s pow / is_zero / is_non_zero). felt252 operands are written in both "
               "signed literal forms. Nothing is claimed about tuples that were not chosen."),
         technique="SMT-chosen representatives per specification region, evaluated by the real compiler (solver-guided exploration)",
         ref="DESIGN.md 3/C07"),
